@@ -45,3 +45,14 @@ func Obj(kind string, v any) {
 		(*h)(kind, v)
 	}
 }
+
+// AtErr marks a yield point that is keyed by an error
+func AtErr(point string, err error) {
+	if err == nil {
+		At(point, "")
+
+		return
+	}
+
+	At(point, err.Error())
+}
